@@ -41,7 +41,7 @@ CLAIMED = {
          "", "6/C19"),
  "C03": ("fault_enumeration", "deterministic simulation with link fault injection (drop/dup/swap/flip/burst/truncate/field replacement/splice) + complete single-fault neighbourhoods of sampled base trains",
          "Faulted fragment trains and crafted trains are fed to the real receiver; every completion is checked against an independent reassembly + CRC oracle evaluated on the bytes actually received.",
-         "Double faults sampled; single-fault neighbourhoods of sampled bases enumerated.", "6/C03"),
+         "Double faults sampled; single-fault neighbourhoods of sampled bases enumerated; the burst / truncation clause is asserted where the harness knows the original packet. One known finding (K1) is recorded in known_findings.json and reported as KNOWN-FINDING.", "6/C03"),
  "C05": ("fault_enumeration", "deterministic simulation: receiver driven to history-reached states, then link noise (systematic sweeps + random + mutated) with storage faults at the memory seam",
          "No panic, consumed bounds and walker termination for decap and peek across receiver state classes; small input sub-spaces enumerated completely.",
          "Sweeps are enumeration and labelled so.", "6/C05"),
@@ -97,7 +97,7 @@ def main():
                      "kind_free_text": "deterministic protocol simulator with fault injection: real Encapsulator/Decapsulator/SimpleGseMemory/DefaultCrc joined by a simulated link; one PRNG decides every choice; programs are explicit op lists (replay = program), delta-debugging minimiser, fresh-process replay"}],
         "checks": checks,
         "not_applicable": na,
-        "notes": "VERIF_SEED selects the base seed (default 20260928); exit 2 = harness error (never reported as a violation). known_findings.json lists recorded/fixed defects.",
+        "notes": "VERIF_SEED selects the base seed (default 20260928); exit 2 = harness error (never reported as a violation). known_findings.json: 17 defects found by the checks and repaired in /repo (status fixed: suppress nothing) and 1 recorded known finding (K1, C03 burst clause, design-level: the C03 check prints a KNOWN-FINDING line for it and exits 0). A run or replay stuck for 20 s is reported as a violation (clause=hang). See DESIGN.md sections 8.3, 10 and 13.",
     }
     json.dump(m, open("/verif/MANIFEST.json", "w"), indent=1)
     print("wrote MANIFEST.json with", len(checks), "checks")
